@@ -450,6 +450,9 @@ top:
 		p.pos++
 		switch b {
 		case '\\':
+			if len(p.buf) <= p.pos {
+				p.raise("not terminated")
+			}
 			b = p.buf[p.pos]
 			p.pos++
 			switch b {
@@ -514,13 +517,14 @@ func (p *parser) readStr(term byte) string {
 		b := p.buf[p.pos]
 		p.pos++
 		if b == term {
-			break
+			return string(p.buf[start : p.pos-1])
 		}
 		if b == '\\' {
 			return p.readEscStr(start, term)
 		}
 	}
-	return string(p.buf[start : p.pos-1])
+	p.raise("not terminated")
+	return ""
 }
 
 func (p *parser) readRegex() *regexp.Regexp {
@@ -653,7 +657,7 @@ func (p *parser) readToken() []byte {
 }
 
 func (p *parser) readOpArgs(o *op) (eq *Equation) {
-	if p.buf[p.pos] != '(' {
+	if len(p.buf) <= p.pos || p.buf[p.pos] != '(' {
 		p.raise("expected a %s function", o.name)
 	}
 	eq = &Equation{o: o}
